@@ -771,9 +771,6 @@ Proof.
     + cbv beta iota zeta. rewrite run_body_acc_eq. apply K.
 Qed.
 
-Theorem trace_final : forall md tops, fst (run_list_acc (init md) [] tops) = run_list (init md) tops.
-Proof. intros. apply run_list_acc_fst. apply Forall_forall. intros t _. apply run_acc_fst. Qed.
-
 (* ---------- counted depth ---------- *)
 Lemma check_peak : forall name c,
   g_peak (fst (check name c)) = g_peak c /\ max_depth (fst (check name c)) = max_depth c.
@@ -914,83 +911,23 @@ Proof.
     rewrite H1, H2, H3, H4, H5, H6, H7, H8. repeat split; lia.
 Qed.
 
-(* for every configured limit and every k: a tree of k+1 nested anonymous frames reaches true nesting k+1 and
-   counted depth k+1 without a single depth placeholder *)
-Theorem anon_unbounded : forall md k,
-  let c := run_list (init md) [anon_chain k] in
-  g_peak_nest c = N.of_nat k + 1 /\ g_peak c = N.of_nat k + 1 /\ exceeded c = [] /\ states c = [] /\ rest c.
-Proof.
-  intros md k. cbn [run_list].
-  destruct (anon_chain_run k (init md)) as (H1 & _ & H3 & H4 & H5 & H6 & H7 & _).
-  cbn -[N.max N.add N.of_nat] in *. repeat split; try assumption; lia.
-Qed.
-
-Theorem refuted_F08a : forall md, exists t, guard_F08a md [t] = false /\ exceeded (run_list (init md) [t]) = [].
-Proof.
-  intro md. exists (anon_chain (N.to_nat (md + 1))).
-  destruct (anon_unbounded md (N.to_nat (md + 1))) as (H1 & _ & H3 & _).
-  split; [|exact H3]. unfold guard_F08a. apply N.leb_gt. rewrite H1. lia.
-Qed.
-
 (* ---------- witnesses rebuilt from the implementation's traces (corpus/C08) ---------- *)
 (* F08b: A{p0:[$ref C]}, C{p0:[$ref A], p1: oneOf[$ref A, string]}, B: string, declared in the order C, A, B *)
 Definition tops_F08b : list call := [(Call (Some [67]) true [(Call None true [(Call None true [(Call (Some [65]) true [(Call None true [(Call None true [(Call (Some [67]) true [])]); (Call None true [(Call (Some [67]) true [(Call None true [(Call None true [(Call (Some [65]) true [])]); (Call None true [])]); (Call (Some [67;80;49]) true [(Call None true []); (Call None true []); (Reg [67;112;49])]); (Reg [67])])])])])]); (Call None true [])]); (Call (Some [67;80;49]) true [(Call None true []); (Call None true []); (Reg [67;80;49])])]); (Call (Some [66]) true [(Reg [66])])].
-
-Theorem refuted_F08b :
-  let c := run_list (init default_max_depth) tops_F08b in
-  rest c /\ guard_F08b default_max_depth tops_F08b = false /\ forallb names_truthy tops_F08b = true
-  /\ In [67] (g_entered c) /\ terminal (state_of c [67]) = false.
-Proof. vm_compute. repeat split; auto. Qed.
 
 (* F08c (fixed): Alias: {$ref: Target}; Target: object — the call tree of the fixed implementation registers the
    declared alias under its own name (regression witness, corpus/C08/F08c.json) *)
 Definition tops_F08c : list call := [(Call (Some [65;108;105;97;115]) true [(Call (Some [84;97;114;103;101;116]) true [(Call None true []); (Reg [84;97;114;103;101;116])]); (Reg [65;108;105;97;115])])].
 Definition declared_F08c : list str := [[65;108;105;97;115]; [84;97;114;103;101;116]].
 
-Example regress_F08c :
-  let c := run_list (init default_max_depth) tops_F08c in
-  rest c /\ guard_F08b default_max_depth tops_F08c = true
-  /\ forallb (fun n => terminal (state_of c n)) declared_F08c = true
-  /\ all_present declared_F08c c = true.
-Proof. vm_compute. repeat split; auto. Qed.
-
 (* F08d (fixed in the loader: build_schemas rejects a schema keyed by the empty string, so the tracker never sees
    it; corpus/C08/F08d.json now yields an empty trace).  The tracker itself still tests `is None` in check but
    truthiness in enter/exit; this is why the theorems about names carry the hypothesis n <> []: *)
 Definition tops_empty_name : list call := [(Call (Some []) true [(Call None true [])])].
 
-Example tracker_empty_name :
-  let c := run_list (init default_max_depth) tops_empty_name in
-  rest c /\ forallb names_truthy tops_empty_name = false
-  /\ In [] (g_entered c) /\ state_of c [] = InProgress.
-Proof. vm_compute. repeat split; auto. Qed.
-
-Example regress_F08d :
-  rest (run_list (init default_max_depth) []) /\ g_entered (run_list (init default_max_depth) []) = [].
-Proof. vm_compute. repeat split. Qed.
-
 (* non-vacuity: a three-schema ring A -> B -(map)-> C -> A with C also referring to itself through oneOf:
    two structural cycles are cut by placeholders, no fall-through happens, five names are entered *)
 Definition tops_ring : list call := [(Call (Some [65]) true [(Call (Some [66]) true [(Call (Some [66;80;48]) true [(Call None true [(Call (Some [67]) true [(Call (Some [65]) true []); (Call (Some [67;80;49]) true [(Call None true [(Call (Some [67]) true [])]); (Call None true []); (Reg [67;112;49])])])]); (Reg [66;112;48])]); (Reg [66])]); (Reg [65])])].
-
-Example guard_nonvacuous :
-  guard_F08b default_max_depth tops_ring = true /\ forallb names_truthy tops_ring = true
-  /\ length (cycles (run_list (init default_max_depth) tops_ring)) = 2%nat
-  /\ length (g_entered (run_list (init default_max_depth) tops_ring)) = 7%nat.
-Proof. vm_compute. repeat split. Qed.
-
-(* ---------- C08 under the guard ---------- *)
-Theorem partial : forall md tops,
-  guard_F08b md tops = true ->
-  let c := run_list (init md) tops in
-  rest c /\ forall n, In n (g_entered c) -> n <> [] -> terminal (state_of c n) = true.
-Proof.
-  intros md tops G c.
-  assert (R : rest c) by (apply balanced_list; split; reflexivity).
-  split; [exact R|]. intros n Hn Hne.
-  destruct (terminal_or_fell c n (run_list_good tops (init md) (good_init md)) R Hn Hne) as [T|T]; [exact T|].
-  unfold guard_F08b in G. fold c in G. destruct (g_fell c); [destruct T | discriminate].
-Qed.
 
 (* ---------- true nesting = counted depth as long as no fall-through happens ---------- *)
 Lemma check_nest : forall name c,
@@ -1193,42 +1130,266 @@ Proof.
       apply app_eq_nil in Hf. destruct Hf as [Hf _]. apply app_eq_nil in Hf. destruct Hf as [_ Hf]. discriminate.
 Qed.
 
-(* Consequence: from a fresh context, if no fall-through happened, the peak of true nesting equals the peak of
-   the counted depth; for trees of named frames both are therefore bounded by the limit + 1. *)
+(* ====================================================================================================== *)
+(* build_schemas' top-level loop: [Plain] invocations and [Fresh] re-parses (state popped, then parsed)     *)
+(* ====================================================================================================== *)
+Lemma alookup_filter_key : forall {V} (d : list (str * V)) k m,
+  alookup m (filter (fun kv => negb (str_eqb k (fst kv))) d) = if str_eqb m k then None else alookup m d.
+Proof.
+  induction d as [|[k' v] d IH]; intros k m; simpl.
+  - destruct (str_eqb m k); reflexivity.
+  - destruct (str_eqb k k') eqn:E1; simpl.
+    + apply str_eqb_eq in E1. subst k'. rewrite IH. destruct (str_eqb m k); reflexivity.
+    + rewrite IH. destruct (str_eqb m k') eqn:E2; [|reflexivity].
+      apply str_eqb_eq in E2. subst k'. destruct (str_eqb m k) eqn:E3; [|reflexivity].
+      apply str_eqb_eq in E3. subst m. rewrite str_eqb_refl in E1. discriminate.
+Qed.
+
+Lemma state_of_pop : forall c k m,
+  state_of (pop_state c k) m = if str_eqb m k then NotStarted else state_of c m.
+Proof.
+  intros c k m. unfold state_of, pop_state. cbn [states set_states]. rewrite alookup_filter_key.
+  destruct (str_eqb m k); reflexivity.
+Qed.
+
+Lemma below_pop : forall c k, below (pop_state c k) c.
+Proof. intros c k. apply below_same; reflexivity. Qed.
+
+Theorem run_top_below : forall x c, below (run_top c x) c.
+Proof.
+  intros [t|k t] c; cbn [run_top]; [apply run_below|].
+  eapply below_trans; [apply run_below | apply below_pop].
+Qed.
+
+Theorem run_tops_below : forall l c, below (run_tops c l) c.
+Proof.
+  induction l as [|x r IH]; intro c; cbn [run_tops]; [apply below_refl|].
+  eapply below_trans; [apply IH | apply run_top_below].
+Qed.
+
+(* C08, balance, for the whole loop of build_schemas (any number of passes, any re-parses) *)
+Theorem balanced_tops : forall l c, rest c -> rest (run_tops c l).
+Proof. intros l c. apply rest_of_below. apply run_tops_below. Qed.
+
+(* an invocation whose own name may have lost its state just before (the re-parse of build_schemas) *)
+Lemma call_good : forall name allow body c,
+  Inv c -> (forall m, In m (g_entered c) -> touched m c \/ name = Some m) ->
+  good (run c (Call name allow body)).
+Proof.
+  intros name allow body c HI HT.
+  rewrite run_Call. unfold call_step.
+  assert (HL : forall c, good c -> good (run_list c body)) by (intros; apply run_list_good; assumption).
+  set (c0 := set_allow (frame_in c name) allow).
+  assert (Hcore : same_core c0 c) by (repeat split).
+  assert (H0 : Inv c0) by (apply (Inv_same_core _ c); [exact Hcore | exact HI]).
+  destruct (enter name c0) as [c1 a] eqn:E.
+  assert (H1 : good c1).
+  { split; [exact (enter_Inv _ _ _ _ H0 E)|].
+    intros m Hm. rewrite (enter_entered _ _ _ _ E) in Hm.
+    assert (Hm' : touched m c \/ name = Some m).
+    { unfold c0 in Hm. cbn [g_entered set_allow frame_in note_entered set_nest] in Hm.
+      destruct name as [n|]; [|apply HT; exact Hm].
+      apply in_app_or in Hm. destruct Hm as [Hm|[Hm|[]]]; [apply HT; exact Hm | right; congruence]. }
+    destruct Hm' as [Hm'|Hm'].
+    - eapply touched_enter; [exact E|]. eapply touched_same_core; [exact Hcore|]. exact Hm'.
+    - subst name. left. pose proof E as E'. apply enter_unfold in E'. destruct E' as (c2 & Hck & Hst & _).
+      unfold state_of. rewrite Hst. fold (state_of c2 m).
+      assert (Hd : Inv (set_depth c0 (depth c0 + 1))) by (apply (Inv_same_core _ c0); [repeat split | exact H0]).
+      pose proof (check_touches m _ Hd) as K. rewrite Hck in K. exact K. }
+  assert (Out : forall X, good X -> good (frame_out X))
+    by (intros X HX; apply (good_same_core _ X); [repeat split | reflexivity | exact HX]).
+  apply Out. destruct a.
+  - apply good_exit, HL, H1.
+  - apply good_exit, H1.
+  - apply good_exit, H1.
+  - pose proof (good_exit name c1 H1) as H2. destruct name as [n|].
+    + destruct (truthy (Some n)) eqn:Et.
+      * destruct (registered (exit (Some n) c1) n); [exact H2|].
+        apply good_exit, HL. split.
+        -- apply reset_Inv; [apply H2|]. rewrite exit_stack. apply exit_stack_notin; [exact Et | apply H1].
+        -- intros m Hm. apply touched_reset. apply H2. exact Hm.
+      * apply good_exit, HL, H2.
+    + apply good_exit, HL, H2.
+Qed.
+
+Lemma fresh_good : forall k t c,
+  fresh_ok (Fresh k t) = true -> good c -> stack c = [] -> good (run (pop_state c k) t).
+Proof.
+  intros k t c Hok [(N & I1 & I3) HT] Hs.
+  destruct t as [name allow body| |]; try discriminate. destruct name as [n|]; [|discriminate].
+  cbn [fresh_ok] in Hok. apply str_eqb_eq in Hok. subst n.
+  apply call_good.
+  - unfold Inv. change (stack (pop_state c k)) with (stack c). rewrite Hs. split; [constructor|]. split.
+    + intros m Hm Hp. rewrite state_of_pop in Hp. destruct (str_eqb m k); [discriminate|].
+      rewrite <- Hs. apply I1; assumption.
+    + intros m [].
+  - intros m Hm. change (g_entered (pop_state c k)) with (g_entered c) in Hm.
+    destruct (str_eq_dec m k) as [->|Hne]; [right; reflexivity|]. left.
+    destruct (HT m Hm) as [T|T]; [left | right; exact T].
+    rewrite state_of_pop. apply str_eqb_neq in Hne. rewrite Hne. exact T.
+Qed.
+
+Theorem good_tops : forall l c,
+  forallb fresh_ok l = true -> good c -> rest c -> good (run_tops c l) /\ rest (run_tops c l).
+Proof.
+  induction l as [|x r IH]; intros c Hok Hg Hr; cbn [run_tops]; [split; assumption|].
+  cbn [forallb] in Hok. apply andb_true_iff in Hok. destruct Hok as [Hx Hok].
+  apply IH; [exact Hok| |].
+  - destruct x as [t|k t]; cbn [run_top]; [apply run_good; exact Hg|].
+    apply fresh_good; [exact Hx | exact Hg | apply Hr].
+  - apply (rest_of_below _ c); [apply run_top_below | exact Hr].
+Qed.
+
+(* the logged execution of the loop computes the same final context *)
+Theorem trace_final : forall tops c acc, fst (run_tops_acc c acc tops) = run_tops c tops.
+Proof.
+  induction tops as [|x r IH]; intros c acc; [reflexivity|]. cbn [run_tops_acc run_tops].
+  assert (E : fst (run_top_acc c acc x) = run_top c x) by (destruct x; cbn [run_top_acc run_top]; apply run_acc_fst).
+  destruct (run_top_acc c acc x) as [c' acc']. cbn [fst] in E. subst c'. apply IH.
+Qed.
+
+Theorem run_tops_fell_ext : forall l c, fell_ext (run_tops c l) c.
+Proof.
+  induction l as [|x r IH]; intro c; cbn [run_tops]; [apply fell_ext_refl|].
+  eapply fell_ext_trans; [apply IH|]. destruct x as [t|k t]; cbn [run_top]; [apply run_fell_ext|].
+  eapply fell_ext_trans; [apply run_fell_ext | apply fell_ext_eq; reflexivity].
+Qed.
+
+Lemma guard_F08b_nil : forall md tops, guard_F08b md tops = true -> g_fell (run_tops (init md) tops) = [].
+Proof. intros md tops G. unfold guard_F08b in G. destruct (g_fell (run_tops (init md) tops)); [reflexivity | discriminate]. Qed.
+
+(* ---------- C08 under the guard, for the real loop ---------- *)
+Theorem partial : forall md tops,
+  guard_F08b md tops = true -> forallb fresh_ok tops = true ->
+  let c := run_tops (init md) tops in
+  rest c /\ forall n, In n (g_entered c) -> n <> [] -> terminal (state_of c n) = true.
+Proof.
+  intros md tops G Hok c.
+  destruct (good_tops tops (init md) Hok (good_init md)) as [Hg R]; [split; reflexivity|]. fold c in Hg, R.
+  split; [exact R|]. intros n Hn Hne.
+  destruct (terminal_or_fell c n Hg R Hn Hne) as [T|T]; [exact T|].
+  apply guard_F08b_nil in G. fold c in G. rewrite G in T. destruct T.
+Qed.
+
+Lemma sync_tops : forall l,
+  forallb (fun x => names_truthy (top_call x)) l = true ->
+  forall c, synced c -> g_fell (run_tops c l) = [] -> synced (run_tops c l).
+Proof.
+  induction l as [|x r IH]; intros Hn c Hs Hf; cbn [run_tops] in *; [exact Hs|].
+  cbn [forallb] in Hn. apply andb_true_iff in Hn. destruct Hn as [Hx Hn].
+  apply IH; [exact Hn| |exact Hf].
+  pose proof (fell_ext_nil _ _ (run_tops_fell_ext r (run_top c x)) Hf) as Hf1.
+  destruct x as [t|k t]; cbn [run_top top_call] in *; apply run_synced; auto.
+Qed.
+
 Theorem nesting_is_depth : forall md tops,
-  guard_F08b md tops = true -> forallb names_truthy tops = true ->
-  let c := run_list (init md) tops in g_peak_nest c = g_peak c.
+  guard_F08b md tops = true -> forallb (fun x => names_truthy (top_call x)) tops = true ->
+  let c := run_tops (init md) tops in g_peak_nest c = g_peak c.
 Proof.
   intros md tops G Hn c.
-  assert (Hf : g_fell c = []) by (unfold guard_F08b in G; fold c in G; destruct (g_fell c); [reflexivity | discriminate]).
   assert (S : synced c).
-  { apply sync_ok_list.
-    - apply Forall_forall. intros t _. apply run_synced.
-    - apply Forall_forall. rewrite forallb_forall in Hn. exact Hn.
-    - unfold synced. cbn. lia.
-    - exact Hf. }
+  { apply sync_tops; [exact Hn | unfold synced; cbn; lia | apply guard_F08b_nil; exact G]. }
   destruct S as (_ & S & _). symmetry. exact S.
 Qed.
 
+Lemma all_named_truthy : forall t, all_named t = true -> names_truthy t = true.
+Proof.
+  induction t as [k|k|name allow body IH] using call_ind2; intro H; try reflexivity.
+  apply all_named_Call in H. destruct H as [H1 H2]. cbn [names_truthy]. apply andb_true_iff. split.
+  - destruct name as [[|x n]|]; try discriminate; reflexivity.
+  - induction body as [|y r IHr]; [reflexivity|].
+    inversion IH as [|? ? I1 I2]; inversion H2 as [|? ? J1 J2]; subst.
+    apply andb_true_iff. split; [apply I1; exact J1 | apply IHr; assumption].
+Qed.
+
+Lemma depth_tops : forall l,
+  forallb (fun x => all_named (top_call x)) l = true ->
+  forall c, NoDup (stack c) -> depth c <= max_depth c ->
+            g_peak (run_tops c l) <= N.max (g_peak c) (max_depth c + 1) /\ max_depth (run_tops c l) = max_depth c.
+Proof.
+  induction l as [|x r IH]; intros Hn c Hnd Hd; cbn [run_tops]; [split; [lia | reflexivity]|].
+  cbn [forallb] in Hn. apply andb_true_iff in Hn. destruct Hn as [Hx Hn].
+  assert (K : g_peak (run_top c x) <= N.max (g_peak c) (max_depth c + 1) /\ max_depth (run_top c x) = max_depth c
+              /\ NoDup (stack (run_top c x)) /\ depth (run_top c x) <= depth c).
+  { destruct x as [t|k t]; cbn [run_top top_call] in *.
+    - destruct (depth_named t Hx c Hnd Hd) as [P M]. destruct (run_below t c Hnd) as (N1 & _ & D1). auto.
+    - destruct (depth_named t Hx (pop_state c k) Hnd Hd) as [P M].
+      destruct (run_below t (pop_state c k) Hnd) as (N1 & _ & D1). auto. }
+  destruct K as (P1 & M1 & N1 & D1).
+  destruct (IH Hn (run_top c x) N1) as [P2 M2]; [lia|]. split; [lia | congruence].
+Qed.
+
 Theorem nesting_named_bounded : forall md tops,
-  guard_F08b md tops = true -> forallb all_named tops = true ->
-  g_peak_nest (run_list (init md) tops) <= md + 1.
+  guard_F08b md tops = true -> forallb (fun x => all_named (top_call x)) tops = true ->
+  g_peak_nest (run_tops (init md) tops) <= md + 1.
 Proof.
   intros md tops G Hn.
-  assert (Hnt : forallb names_truthy tops = true).
-  { apply forallb_forall. intros t Ht. rewrite forallb_forall in Hn. specialize (Hn t Ht).
-    revert Hn. clear. induction t as [k|k|name allow body IH] using call_ind2; intro H; try reflexivity.
-    apply all_named_Call in H. destruct H as [H1 H2]. cbn [names_truthy]. apply andb_true_iff. split.
-    - destruct name as [[|x n]|]; try discriminate; reflexivity.
-    - induction body as [|y r IHr]; [reflexivity|].
-      inversion IH as [|? ? I1 I2]; inversion H2 as [|? ? J1 J2]; subst.
-      apply andb_true_iff. split; [apply I1; exact J1 | apply IHr; assumption]. }
+  assert (Hnt : forallb (fun x => names_truthy (top_call x)) tops = true).
+  { apply forallb_forall. intros x Hx. rewrite forallb_forall in Hn. apply all_named_truthy, Hn, Hx. }
   rewrite (nesting_is_depth md tops G Hnt).
-  assert (D : g_peak (run_list (init md) tops) <= N.max (g_peak (init md)) (max_depth (init md) + 1)
-              /\ max_depth (run_list (init md) tops) = max_depth (init md)).
-  { apply depth_ok_list.
-    - apply Forall_forall. intros t Ht. apply depth_named. rewrite forallb_forall in Hn. apply Hn. exact Ht.
-    - constructor.
-    - cbn. lia. }
-  destruct D as [D _]. cbn in D. lia.
+  destruct (depth_tops tops Hn (init md)) as [D _]; [constructor | cbn; lia|]. cbn in D. lia.
 Qed.
+
+(* ---------- F08a ---------- *)
+(* for every configured limit and every k: a tree of k+1 nested anonymous frames reaches true nesting k+1 and
+   counted depth k+1 without a single depth placeholder *)
+Theorem anon_unbounded : forall md k,
+  let c := run_tops (init md) [Plain (anon_chain k)] in
+  g_peak_nest c = N.of_nat k + 1 /\ g_peak c = N.of_nat k + 1 /\ exceeded c = [] /\ states c = [] /\ rest c.
+Proof.
+  intros md k. cbn [run_tops run_top].
+  destruct (anon_chain_run k (init md)) as (H1 & _ & H3 & H4 & H5 & H6 & H7 & _).
+  cbn -[N.max N.add N.of_nat] in *. repeat split; try assumption; lia.
+Qed.
+
+Theorem refuted_F08a : forall md, exists t,
+  guard_F08a md [Plain t] = false /\ exceeded (run_tops (init md) [Plain t]) = [].
+Proof.
+  intro md. exists (anon_chain (N.to_nat (md + 1))).
+  destruct (anon_unbounded md (N.to_nat (md + 1))) as (H1 & _ & H3 & _).
+  split; [|exact H3]. unfold guard_F08a. apply N.leb_gt. rewrite H1. lia.
+Qed.
+
+(* ---------- witnesses ---------- *)
+Definition plain (l : list call) : list top := map Plain l.
+
+Theorem refuted_F08b :
+  let c := run_tops (init default_max_depth) (plain tops_F08b) in
+  rest c /\ guard_F08b default_max_depth (plain tops_F08b) = false /\ forallb names_truthy tops_F08b = true
+  /\ In [67] (g_entered c) /\ terminal (state_of c [67]) = false.
+Proof. vm_compute. repeat split; auto. Qed.
+
+Example regress_F08c :
+  let c := run_tops (init default_max_depth) (plain tops_F08c) in
+  rest c /\ guard_F08b default_max_depth (plain tops_F08c) = true
+  /\ forallb (fun n => terminal (state_of c n)) declared_F08c = true
+  /\ all_present declared_F08c c = true.
+Proof. vm_compute. repeat split; auto. Qed.
+
+Example tracker_empty_name :
+  let c := run_tops (init default_max_depth) (plain tops_empty_name) in
+  rest c /\ forallb names_truthy tops_empty_name = false
+  /\ In [] (g_entered c) /\ state_of c [] = InProgress.
+Proof. vm_compute. repeat split; auto. Qed.
+
+Example regress_F08d :
+  rest (run_tops (init default_max_depth) []) /\ g_entered (run_tops (init default_max_depth) []) = [].
+Proof. vm_compute. repeat split. Qed.
+
+Example guard_nonvacuous :
+  guard_F08b default_max_depth (plain tops_ring) = true /\ forallb names_truthy tops_ring = true
+  /\ length (cycles (run_tops (init default_max_depth) (plain tops_ring))) = 2%nat
+  /\ length (g_entered (run_tops (init default_max_depth) (plain tops_ring))) = 7%nat.
+Proof. vm_compute. repeat split. Qed.
+
+(* the re-parse loop on the implementation's own trace (S0 -> S1 -> S2 -[array]-> S3, PYOPENAPI_MAX_DEPTH=1):
+   S1, S2, S3 are first answered with depth placeholders and then parsed again from depth 0 *)
+Definition tops_fresh : list top := [(Plain (Call (Some [83;48]) true [(Call (Some [83;49]) true []); (Reg [83;48])])); (Fresh [83;49] (Call (Some [83;49]) true [(Call (Some [83;50]) true [])])); (Fresh [83;50] (Call (Some [83;50]) true [(Call None true [(Call None true [(Call (Some [83;51]) true [])]); (Call None true [(Call (Some [83;51]) true [])])])])); (Fresh [83;51] (Call (Some [83;51]) true [(Call None true [])]))].
+
+Example fresh_nonvacuous :
+  let c := run_tops (init 1) tops_fresh in
+  guard_F08b 1 tops_fresh = true /\ forallb fresh_ok tops_fresh = true
+  /\ length (exceeded c) = 3%nat
+  /\ forallb (fun n => terminal (state_of c n)) [[83;48]; [83;49]; [83;50]; [83;51]] = true
+  /\ map (state_of c) [[83;49]; [83;50]; [83;51]] = [Completed; Completed; Completed].
+Proof. vm_compute. repeat split. Qed.
